@@ -150,10 +150,16 @@ pub fn render(f: &FactSet, spec: &TextSpec) -> TextFiles {
             } else {
                 ""
             };
-            let text = if spec.transitive {
-                format!("{}\t{}\t{}\t{}\t-\tmim2gene\tOMIM:{}{}", hp(t), label, g.id, g.name, 100_000 + g.id % 1000, extra)
-            } else {
-                format!("{}\t{}\t{}\t{}\t-\tOMIM:{}{}", g.id, g.name, hp(t), label, 100_000 + g.id % 1000, extra)
+            // older releases of both gene files end right after the last column the loaders read
+            let minimal = ign(18, key);
+            if minimal {
+                *out.injected.entry("minimal-columns-row").or_default() += 1;
+            }
+            let text = match (spec.transitive, minimal) {
+                (true, true) => format!("{}\t{}\t{}\t{}", hp(t), label, g.id, g.name),
+                (true, false) => format!("{}\t{}\t{}\t{}\t-\tmim2gene\tOMIM:{}{}", hp(t), label, g.id, g.name, 100_000 + g.id % 1000, extra),
+                (false, true) => format!("{}\t{}\t{}", g.id, g.name, hp(t)),
+                (false, false) => format!("{}\t{}\t{}\t{}\t-\tOMIM:{}{}", g.id, g.name, hp(t), label, 100_000 + g.id % 1000, extra),
             };
             rows.push(Row { key, depth: u64::from(depth.get(&t).copied().unwrap_or(0)), text });
         }
@@ -187,7 +193,15 @@ pub fn render(f: &FactSet, spec: &TextSpec) -> TextFiles {
                 } else {
                     ""
                 };
-                let text = format!("{}:{}\t{}\t\t{}\tPMID:31675180\tPCS\t\t1/2\t\tP\tHPO:probinson[2021-06-21]{}", prefix, d.id, d.name, hp(*t), extra);
+                let text = if ign(19, key) {
+                    *out.injected.entry("minimal-columns-row").or_default() += 1;
+                    format!("{}:{}\t{}\t\t{}", prefix, d.id, d.name, hp(*t))
+                } else {
+                    format!("{}:{}\t{}\t\t{}\tPMID:31675180\tPCS\t\t1/2\t\tP\tHPO:probinson[2021-06-21]{}", prefix, d.id, d.name, hp(*t), extra)
+                };
+                // in the id-sorted modes the file is sorted by numeric disease id and term, whatever the
+                // database prefix, so OMIM:n and ORPHA:n rows for one term are neighbours
+                let key = if matches!(spec.disease_rows.mode, crate::channel::Mode::IdAsc | crate::channel::Mode::IdDesc) { (u64::from(d.id) << 33) | (u64::from(*t) << 1) | (kind as u64 & 1) } else { key };
                 rows.push(Row { key, depth: u64::from(depth.get(t).copied().unwrap_or(0)), text });
                 // NOT row: a (disease, term) pair that is *not* a fact
                 if ign(13, key) {
